@@ -751,7 +751,16 @@ class Sim:
         self.nodes = {}
         for r in S.ae.at:
             self._walk(r)
-        assert sorted(self.nodes) == sorted(self.spec.tags), (sorted(self.nodes), self.spec.tags)
+        # the task tree the scheduler walks must hold every algorithm, each consumer as a child of its producers
+        self.tree_defects = []
+        for t in sorted(set(self.spec.tags) - set(self.nodes)):
+            self.tree_defects.append('algorithm %s is not reachable from the roots of the task tree' % t)
+        for i, j, f in self.spec.edges:
+            a, b = self.nodes.get(self.spec.tags[i]), self.nodes.get(self.spec.tags[j])
+            if a is not None and b is not None and not any(c is b for c in a):
+                self.tree_defects.append('%s declares %s of %s but is not its child in the task tree' % (
+                    self.spec.tags[j], f, self.spec.tags[i]))
+        assert not set(self.nodes) - set(self.spec.tags), (sorted(self.nodes), self.spec.tags)
 
     def farm_quiet(self):
         '''nothing handed to a worker and nothing queued for one (what FSM.wait_for_crew waits for)'''
@@ -1464,6 +1473,19 @@ def run_scripts(job, monitor_factory):
     return res
 
 
+def tree_violation(sim, mon):
+    '''the engine's task tree disagrees with the declared inputs: a violation for the harness whose monitor names
+    the clause it breaks (TREE_CLAUSE), otherwise the simulation cannot be set up (machinery error)'''
+    if not sim.tree_defects:
+        return None
+    clause = getattr(mon, 'TREE_CLAUSE', None)
+    if clause is None:
+        raise AssertionError('task tree of the synthetic engine is not what its inputs declare: %s' % sim.tree_defects[:3])
+    return {'clause': clause, 'signature': 'consumer-not-in-task-tree', 'observed': {'task_tree': sim.tree_defects[:6]},
+            'expected': 'every algorithm is in the task tree and is a child of each algorithm whose values it declares '
+                        'as input (schedule.update organises children of the reporting node only)'}
+
+
 def replay_history(universe, history, monitor_factory, tmp=None):
     '''fresh simulation, linear replay; returns (violations found with index, records)'''
     sim = Sim(universe, tmp)
@@ -1471,6 +1493,9 @@ def replay_history(universe, history, monitor_factory, tmp=None):
         mon = monitor_factory(universe)
         mon.reset()
         out = []
+        tv = tree_violation(sim, mon)
+        if tv is not None:
+            return [(0, tv)]
         for idx, ev in enumerate(history):
             ev = list(ev)
             if ev[0] == 'reply':
@@ -1549,6 +1574,11 @@ def explore_job(job, monitor_factory, frontier_hook=None):
     sim = Sim(u)
     try:
         mon = monitor_factory(u)
+        tv = tree_violation(sim, mon)
+        if tv is not None:
+            res.add_violation(u, [], tv)
+            res.cases += 1
+            return res
         if job.get('depth', 0) > 0:
             hook = None
             if frontier_hook is not None:
